@@ -255,3 +255,52 @@ theorem cvv_generate_cvc3 (k t a u : Bytes) : Gen.cvv.generate_cvc3 k t a u = ge
   all_goals simp_all
 
 end Pyemv.ModRefines
+
+namespace Pyemv.ModRefines
+open Pyemv Pyemv.Gen
+
+/-! ### the EMV2000 tree (nested closures lifted, recursion on the height) -/
+
+theorem kd_tree_derive (b : Nat) (x y : Bytes) (j : Nat) :
+    Gen.kd.derive_emv2000_tree_sk.derive b x y j = treeDerive b x y j := by
+  unfold Gen.kd.derive_emv2000_tree_sk.derive treeDerive pyMod
+  simp only [tools_xor, tools_ecb, rep_flatten, zeros, bind, Except.bind, pure, Except.pure]
+  by_cases hb : b = 0
+  · simp [hb, throw, throwThe, MonadExceptOf.throw]
+  · simp only [hb, if_false]
+    repeat (first | rfl | split)
+    all_goals simp_all
+
+theorem kd_tree_walk (b : Nat) (mk iv : Bytes) : ∀ (h j : Nat),
+    Gen.kd.derive_emv2000_tree_sk.walk b mk iv j h = treeWalk b mk iv j h := by
+  intro h
+  induction h with
+  | zero => intro j; rfl
+  | succ h ih =>
+    intro j
+    unfold Gen.kd.derive_emv2000_tree_sk.walk treeWalk pyDiv
+    simp only [ih, kd_tree_derive, bind, Except.bind, pure, Except.pure]
+    by_cases hb : b = 0
+    · simp [hb, throw, throwThe, MonadExceptOf.throw]
+    · simp only [hb, if_false]
+      all_goals
+        cases treeWalk b mk iv (j / b) h with
+        | error e => rfl
+        | ok pg =>
+          obtain ⟨p, gp⟩ := pg
+          first
+          | rfl
+          | (simp only []; done)
+          | (simp only []; cases treeDerive b p gp j <;> rfl)
+
+theorem kd_tree_sk (mk atc : Bytes) (h b : Nat) (iv : Bytes) :
+    Gen.kd.derive_emv2000_tree_sk mk atc h b iv = deriveEmv2000TreeSk mk atc h b iv := by
+  unfold Gen.kd.derive_emv2000_tree_sk deriveEmv2000TreeSk pyDiv
+  simp only [kd_tree_walk, kd_tree_derive, tools_xor, tools_adjust, bind, Except.bind, pure, Except.pure]
+  by_cases h1 : mk.length = 16 <;> by_cases h2 : atc.length = 2 <;> by_cases h3 : iv.length = 16 <;>
+    by_cases hg : b ^ h ≤ 65535 <;> by_cases hb : b = 0 <;>
+    simp [h1, h2, h3, hg, hb, throw, throwThe, MonadExceptOf.throw]
+  all_goals (repeat (first | rfl | split))
+  all_goals simp_all
+
+end Pyemv.ModRefines
